@@ -166,6 +166,39 @@ func MakeFiller(p *Plan, src string) node.Filler {
 	addrs := decodeAddrs(c.Addrs)
 	return func(b *node.Block) {
 		r := blockRNG(p.Seed, src, b.Num, b.Version)
+		var seeded []node.Tx
+		for _, sd := range c.Seeded {
+			if b.Num < 1 || b.Num > sd.UpTo || b.Num != 1+uint64(len(seeded))%sd.UpTo && false {
+				continue
+			}
+			tx := node.Tx{Hash: node.Keccak([]byte("seedtx"), b.Hash, []byte(sd.Event.Name)), From: nonZeroBytes(r, 20), To: nonZeroBytes(r, 20), Input: []byte{1}, Value: big.NewInt(0), GasPrice: big.NewInt(1), EffGasPrice: big.NewInt(1), Status: 1}
+			for ai, a := range addrs {
+				vals := make([]model.AV, len(sd.Event.Inputs))
+				for i, in := range sd.Event.Inputs {
+					vals[i] = RandValue(r, in, nil)
+				}
+				vals[sd.AddrInput] = model.AV{Type: "address", Bytes: a}
+				l := node.Log{Addr: addrs[(ai+1)%len(addrs)]}
+				l.Topics, l.Data = model.EncodeLog(sd.Event, vals)
+				l.Tag = &model.LogTag{Sig: model.Signature(sd.Event), NIdx: model.NumIndexed(sd.Event), Values: vals}
+				tx.Logs = append(tx.Logs, l)
+			}
+			seeded = append(seeded, tx)
+		}
+		defer func() {
+			if len(seeded) == 0 {
+				return
+			}
+			b.Txs = append(b.Txs, seeded...)
+			li := uint64(0)
+			for ti := range b.Txs {
+				b.Txs[ti].Idx = uint64(ti)
+				for k := range b.Txs[ti].Logs {
+					b.Txs[ti].Logs[k].Idx = li
+					li++
+				}
+			}
+		}()
 		if c.MinTx == 0 && r.IntN(100) < c.EmptyPct {
 			return
 		}
